@@ -71,6 +71,7 @@ type Worker struct {
 	CurS     string
 	samples  []any
 	nsample  int64
+	Acc      [64]int64 // cheap numeric accumulators, summed into Ctx.Acc after each Parallel
 }
 
 func (w *Worker) Count(key string)           { w.counts[key]++ }
@@ -115,6 +116,7 @@ type Ctx struct {
 	Inconclusive []string
 	Distinct     *Distinct
 	stallLimit   int
+	Acc          [64]int64
 }
 
 func NewCtx(id, tier string, seed int64, root string) *Ctx {
@@ -211,6 +213,9 @@ func (c *Ctx) Parallel(label string, n int, chunk int, f func(w *Worker, i int))
 			c.Counts[k] += v
 		}
 		c.Evals += w.evals
+		for i, x := range w.Acc {
+			c.Acc[i] += x
+		}
 		for _, s := range w.samples {
 			if len(c.Samples) < 24 {
 				c.Samples = append(c.Samples, s)
